@@ -190,50 +190,18 @@ End Pb.
 Section PbProto.
   Variable skip_group : bytes -> res bytes.
 
-  (* Pack: frame and the size set on the message; an invalid UTF-8 service method is a
-     marshalling error; a size above the limit ends in an index-out-of-range panic (SetSize's
-     refusal is ignored, Size() of the fresh message stays 0) *)
+  (* Pack (framing: pfx_pack); an invalid UTF-8 service method is a marshalling error *)
   Definition pb_pack (lim : N) (p : list filter) (m : msg) : res (bytes * N) :=
-    if negb (utf8_valid (m_method m)) then Err
-    else
-      b <- of_option (pipe_pack p (pb_payload m)) ;;
-      let ids := pipe_ids p in
-      let size := (1 + blen ids + blen b) mod 4294967296 in
-      if lim <? size then Panic
-      else Ok (be_of_N 4 size ++ n2b (blen ids) :: ids ++ b, size).
+    if negb (utf8_valid (m_method m)) then Err else pfx_pack lim p (pb_payload m).
 
   Definition msg_of_pbraw (r : pbraw) (body : bytes) : res msg :=
     st <- status_decode (pr_status r) ;;
     meta <- args_parse (pr_meta r) ;;
     Ok (mkMsg (pr_seq r) (wrap8 (pr_mtype r)) (pr_method r) st meta (wrap8 (pr_codec r)) body).
 
-  (* Unpack from the head of the stream (same framing as jsonproto) *)
+  (* Unpack (framing: pfx_unpack) *)
+  Definition pb_parse (y : bytes) : res msg :=
+    r <- pb_decode true skip_group schema_pb y ;; msg_of_pbraw r (pr_body r).
   Definition pb_unpack (reg : registry) (lim : N) (s : bytes)
-    : res (msg * list byte * N * bytes) :=
-    '(b4, s) <- take 4 s ;;
-    let size := N_of_be b4 in
-    if lim <? size then Err
-    else if size =? 0 then Ok (msg0, [], 0, s)
-    else
-      '(buf, s) <- take size s ;;
-      match buf with
-      | [] => Err
-      | x :: d =>
-          let xl := b2n x in
-          payload <-
-            (if xl =? 0 then Ok ([], d)
-             else
-               if blen d <? xl then Err
-               else
-                 let ids := firstn (N.to_nat xl) d in
-                 match pipe_append reg [] ids with
-                 | (_, Some _) => Err
-                 | (p, None) =>
-                     y <- of_option (pipe_unpack p (skipn (N.to_nat xl) d)) ;; Ok (pipe_ids p, y)
-                 end) ;;
-          let '(ids, y) := payload in
-          r <- pb_decode true skip_group schema_pb y ;;
-          m <- msg_of_pbraw r (pr_body r) ;;
-          Ok (m, ids, size, s)
-      end.
+    : res (msg * list byte * N * bytes) := pfx_unpack pb_parse reg lim s.
 End PbProto.
